@@ -128,3 +128,87 @@ def scan_lock_operations():
         ("AsyncEngine.processing_loop", "acquire"), ("AsyncEngine.processing_loop", "release"),
     }
     return [_ob("F3/lock-used-only-in-processing_loop", sites <= allowed, str(sorted(sites - allowed)))]
+
+
+# --------------------------------------------------------------------------- C16 ownership scan
+MUTATORS = {"append", "add", "update", "pop", "clear", "extend", "insert", "remove", "setdefault", "popleft", "appendleft",
+            "discard", "sort", "reverse", "add_transitions", "add_event", "_replace"}
+
+
+def _root(n):
+    while isinstance(n, (ast.Attribute, ast.Subscript, ast.Call)):
+        n = n.value if not isinstance(n, ast.Call) else n.func
+    return n.id if isinstance(n, ast.Name) else "<expr>"
+
+
+def _fresh_locals(fn):
+    """locals bound (only) to constructor-like calls, displays or comprehensions in this function:
+    objects the function itself created"""
+    fresh = set()
+    for n in _own_nodes(fn):
+        if isinstance(n, ast.Assign) and len(n.targets) == 1 and isinstance(n.targets[0], ast.Name):
+            v = n.value
+            if isinstance(v, (ast.Dict, ast.List, ast.Set, ast.ListComp, ast.DictComp, ast.SetComp, ast.Tuple)):
+                fresh.add(n.targets[0].id)
+            elif isinstance(v, ast.Call) and isinstance(v.func, ast.Name) and (v.func.id[:1].isupper() or v.func.id in (
+                    "deque", "set", "dict", "list", "defaultdict", "deepcopy", "partial", "iter")):
+                fresh.add(n.targets[0].id)
+    return fresh
+
+
+def write_sites():
+    """Every heap write in the package whose target is not an object the function just created:
+    (file, function, kind, root, attribute-or-method)."""
+    sites = set()
+    for rel, q, fn in _functions():
+        fresh_l = _fresh_locals(fn)
+        nested = {n.name for n in _own_nodes(fn) if isinstance(n, (ast.FunctionDef, ast.AsyncFunctionDef))}
+        for n in _own_nodes(fn):
+            targets = []
+            if isinstance(n, ast.Assign):
+                targets = n.targets
+            elif isinstance(n, (ast.AugAssign, ast.AnnAssign)):
+                targets = [n.target]
+            elif isinstance(n, ast.Delete):
+                targets = n.targets
+            for t in targets:
+                for sub in ([t] if not isinstance(t, (ast.Tuple, ast.List)) else t.elts):
+                    if isinstance(sub, ast.Attribute):
+                        r = _root(sub)
+                        if r in fresh_l or r in nested:
+                            continue
+                        sites.add((rel, q, "attr-store", r, sub.attr))
+                    elif isinstance(sub, ast.Subscript):
+                        r = _root(sub)
+                        if r in fresh_l:
+                            continue
+                        sites.add((rel, q, "item-store", r, _attr_chain(sub.value)[-1] if _attr_chain(sub.value) else "?"))
+            if isinstance(n, ast.Call):
+                if isinstance(n.func, ast.Name) and n.func.id == "setattr":
+                    sites.add((rel, q, "setattr", _root(n.args[0]) if n.args else "?", "*"))
+                elif isinstance(n.func, ast.Attribute) and n.func.attr in MUTATORS:
+                    r = _root(n.func.value)
+                    if r in fresh_l:
+                        continue
+                    ch = _attr_chain(n.func.value)
+                    sites.add((rel, q, "mutating-call", r, (ch[-1] if ch else "?") + "." + n.func.attr))
+    return sorted(sites)
+
+
+def scan_ownership():
+    """C16 (O3): every write site is classified in the committed ownership table; a new site fails.
+    (O1/O2) sites classified process-global or class-owned-at-instance-time carry a lemma or a
+    recorded finding (see known_findings.jsonl)."""
+    import json
+    table_path = os.path.join(os.path.dirname(__file__), "ownership_table.json")
+    table = {tuple(x["site"]): x["owner"] for x in json.load(open(table_path))}
+    obs = []
+    cur = write_sites()
+    unknown = [s for s in cur if tuple(s) not in table]
+    obs.append(_ob("C16|O3/every-heap-write-site-is-classified-in-the-ownership-table", not unknown, str(unknown[:6])))
+    glob = sorted({table[tuple(s)] for s in cur if tuple(s) in table and table[tuple(s)].startswith("process-global")})
+    allowed_globals = {"process-global:signature-cache", "process-global:registry", "process-global:thread-local-loop"}
+    obs.append(_ob("C16|O1/process-global-state-is-only-the-three-known-caches", set(glob) <= allowed_globals, str(glob)))
+    per_instance = [s for s in cur if tuple(s) in table and table[tuple(s)] == "instance-owned"]
+    obs.append(_ob("C16|O1/instance-operations-write-instance-owned-state", len(per_instance) > 0, f"{len(per_instance)} sites"))
+    return obs
